@@ -418,9 +418,15 @@ class AddComputedField(Proc):
 
     def gen(self, rng, desc, rows):
         op = rng.choice(['sum', 'max', 'min', 'multiply', 'constant', 'join'])
-        nums = sorted({f['name'] for r in desc['resources'] for f in r['schema']['fields'] if f['type'] in ('integer', 'number')})
-        ints = sorted({f['name'] for r in desc['resources'] for f in r['schema']['fields'] if f['type'] == 'integer'})
-        texty = sorted({f['name'] for r in desc['resources'] for f in r['schema']['fields'] if f['type'] in ('integer', 'string')})
+        # a field name may occur with different types in different resources: keep the names whose every
+        # occurrence is inside the model (exact numbers for arithmetic; ints and strings for join's str())
+        def only(types):
+            occ = {}
+            for r in desc['resources']:
+                for f in r['schema']['fields']:
+                    occ.setdefault(f['name'], set()).add(f['type'])
+            return sorted(n for n, ts in occ.items() if ts <= set(types))
+        nums, ints, texty = only(['integer', 'number']), only(['integer']), only(['integer', 'string'])
         pool = {'constant': [], 'join': texty}.get(op, nums if rng.random() < 0.8 else ints)
         srcs = rng.sample(pool, rng.randint(0 if op in ('sum', 'join') else 1, min(3, len(pool)))) if pool else []
         if op != 'constant' and rng.random() < 0.1:
